@@ -231,7 +231,10 @@ class SymArr:
 
     def copy(self):
         e = self.elem
-        return SymArr(self.n, e, self.kind)
+        c = SymArr(self.n, e, self.kind)
+        if getattr(self, "const", None) is not None:
+            c.const = self.const
+        return c
 
     def __repr__(self):
         return "SymArr#%d(n=%s)" % (self.ident, self.n)
